@@ -16,7 +16,8 @@ All `fix:` commits recorded in known_findings.json are part of the modelled code
 
 Not modelled: timers (a local timeout is an explicit event), DynamicDuration, logging, the
 command cache beyond "the next fresh command is available" (batch size 1, C15), queue overflow
-(capacity 100 is never reached by the harness), goroutines (synchronous vote verification).
+(capacity 100 is never reached by the harness). Goroutines: vote verification is synchronous in `collectVote`;
+the asynchronous variant is its two halves `collectVotePre` / `verifyCertM` (end of this file), scheduled by the driver.
 Loops over ancestor chains carry fuel = number of known blocks + 2 (hash chains are acyclic).
 -/
 namespace HsVerif.Model
@@ -701,5 +702,155 @@ def start (k : Keys) (c : RCfg) (s : RState) : RState × List Out :=
     runLoop k c 100000
   let ((), s1) := act.run s0
   ({ s1 with out := [] }, s1.out)
+
+/-! ## asynchronous vote verification
+
+Without `WithSyncVerification`, `CollectVote` ends with `go vm.verifyCert(cert, block)`: the part up to
+and including the `block too old` test runs on the event loop (`collectVotePre`), the rest — signature
+verification outside the lock, then under `vm.mut` duplicate test, append, quorum test,
+`CreateQuorumCert`, the `NewViewMsg` event and the deferred clean-up — runs later, in the state of that
+later moment, with the block captured at arrival (`verifyCertM`).  `collectVote` itself (the synchronous
+handler every proof chain unfolds) is untouched; `collectVote_eq_pre_then_verify` ties the two pieces
+to it.  `verifyCert` is atomic (the whole of it below the verification holds `vm.mut`, the
+verification is a pure function of signature and block), so asynchronous verification is an
+interleaving of `verifyCertM` bodies with the handlers of the event loop. -/
+
+/-- `CollectVote` up to `go vm.verifyCert(cert, block)`: `some block` = verification is started -/
+def collectVotePre (id : Nat) (sig : Option Sig) (hash : Hash) (deferred : Bool) : M (Option Block) := do
+  match sig with
+  | none => return none
+  | some sg =>
+  if sg.len != 1 then return none
+  let block ←
+    if !deferred then do
+      let s ← get
+      match s.chain.localGet hash with
+      | none =>
+        modify fun s => { s with waitingProp := s.waitingProp ++ [.vote id sig hash true] }
+        return none
+      | some b => pure b
+    else do
+      match ← getBlock hash with
+      | none => return none
+      | some b => pure b
+  let s ← get
+  if block.view ≤ s.highQC.view then return none
+  return some block
+
+/-- `verifyCert(cert, block)` -/
+def verifyCertM (k : Keys) (c : RCfg) (sig : Option Sig) (hash : Hash) (block : Block) : M Unit := do
+  match sig with
+  | none => return
+  | some sg =>
+  let s ← get
+  match verifyPC (env k c s) sig hash with
+  | .ok () => pure ()
+  | _ => return
+  let s ← get
+  let votes := (s.votes.lookup hash).getD []
+  let signer := sg.first
+  if votes.any (fun v => v.1 == signer) then votesCleanup; return
+  let votes := votes ++ [(signer, sg)]
+  modify fun s => { s with votes := (hash, votes) :: s.votes.filter (fun p => p.1 != hash) }
+  if votes.length < c.cfg.quorum then votesCleanup; return
+  -- CreateQuorumCert
+  let qc? : Option QC :=
+    if block.hash == genesisHash then some genesisQC
+    else match combine c.cfg (votes.map (·.2)) with
+      | .ok s => some ⟨some s, block.view, block.hash⟩
+      | _ => none
+  match qc? with
+  | none => votesCleanup; return
+  | some qc =>
+    modify fun s => { s with votes := s.votes.filter (fun p => p.1 != hash) }
+    addEvent (.newview c.id { qc := some qc })
+    votesCleanup
+
+set_option linter.unusedSimpArgs false in
+/-- the synchronous handler is the first piece followed at once by the second -/
+theorem collectVote_eq_pre_then_verify (k : Keys) (c : RCfg) (id : Nat) (sig : Option Sig) (hash : Hash) (d : Bool) :
+    collectVote k c id sig hash d =
+      (do match ← collectVotePre id sig hash d with
+          | none => pure ()
+          | some b => verifyCertM k c sig hash b) := by
+  funext s
+  cases sig with
+  | none => rfl
+  | some sg =>
+    by_cases h1 : sg.len = 1
+    · cases d <;>
+      simp [collectVote, collectVotePre, verifyCertM, getBlock, bind, pure, get, getThe, MonadStateOf.get,
+        modify, modifyGet, MonadStateOf.modifyGet, set, h1] <;>
+      simp only [StateT.bind, StateT.pure, StateT.get, StateT.modifyGet, StateT.set, bind, pure]
+      · cases hl : s.chain.localGet hash with
+        | none => rfl
+        | some b =>
+          simp only [StateT.bind, StateT.pure, StateT.get, StateT.modifyGet, StateT.set, bind, pure]
+          by_cases hv : b.view ≤ s.highQC.view
+          · simp only [hv, if_true, StateT.pure, pure]
+          · simp only [hv, if_false, StateT.pure, pure] <;> rfl
+      · cases hg : (s.chain.get hash).snd with
+        | none => rfl
+        | some b =>
+          simp only [StateT.bind, StateT.pure, StateT.get, StateT.modifyGet, StateT.set, bind, pure]
+          by_cases hv : b.view ≤ s.highQC.view
+          · simp only [hv, if_true, StateT.pure, pure]
+          · simp only [hv, if_false, StateT.pure, pure] <;> rfl
+    · cases d <;>
+      simp [collectVote, collectVotePre, verifyCertM, getBlock, bind, pure, get, getThe, MonadStateOf.get,
+        modify, modifyGet, MonadStateOf.modifyGet, set, h1] <;> rfl
+
+/-- a vote whose verification has been started and not finished: what the goroutine holds -/
+structure HeldVote where
+  id : Nat
+  sig : Option Sig
+  hash : Hash
+  block : Block
+deriving Repr
+
+/-- `Tick` while vote verification is held back (the harness's closed gate): a vote event runs
+`collectVotePre` only and the started verification joins the held ones — except a vote whose only
+claimed signer is the replica itself, which the gate lets pass (as it does the replica's own vote,
+handed to the voting machine in the middle of a handler by `aggregateVote`). -/
+def tickHeld (k : Keys) (c : RCfg) (held : List HeldVote) : M (Bool × List HeldVote) := do
+  let s ← get
+  match s.queue with
+  | .vote id sig hash d :: rest =>
+    set { s with queue := rest }
+    match ← collectVotePre id sig hash d with
+    | none => return (true, held)
+    | some b =>
+      if sig.map (·.first) == some c.id then
+        verifyCertM k c sig hash b
+        return (true, held)
+      else return (true, held ++ [⟨id, sig, hash, b⟩])
+  | _ =>
+    let r ← tick k c
+    return (r, held)
+
+def runLoopHeld (k : Keys) (c : RCfg) : Nat → List HeldVote → M (List HeldVote)
+  | 0, held => pure held
+  | fuel + 1, held => do
+    let (r, held') ← tickHeld k c held
+    if r then runLoopHeld k c fuel held' else pure held'
+
+/-- `act`, then the event loop to quiescence — with the gate closed (`some held`) or open (`none`);
+returns the effects of this step and the held verifications -/
+def stepAsync (k : Keys) (c : RCfg) (s : RState) (act : M Unit) (held : Option (List HeldVote)) :
+    (RState × List Out) × List HeldVote :=
+  let s0 := { s with out := [] }
+  let body : M (List HeldVote) := do
+    act
+    match held with
+    | some h => runLoopHeld k c 100000 h
+    | none => do runLoop k c 100000; pure []
+  let (h', s1) := body.run s0
+  (({ s1 with out := [] }, s1.out), h')
+
+/-- what `start` does before the event loop runs -/
+def startAct (k : Keys) (c : RCfg) : M Unit := do
+  let s ← get
+  if s.view == 1 && c.leader 1 == c.id then
+    createAndPropose k c { qc := some s.highQC, tc := some s.highTC }
 
 end HsVerif.Model
